@@ -95,7 +95,7 @@ claim("C09", "exploration",
       "proptest generation; oracle = reference walk / selection model compared set-wise", "DESIGN.md 4 C09")
 
 claim("C19", "exploration",
-      "The real semaphore.rs is compiled against shuttle's Mutex/Condvar/Arc (import line swapped by harness/build.rs, build fails if the line is missing). Generated programs (0-2 permits, 2-4 threads x 1-3 steps of pair / owned-guard hand-off / release-only, 0-3 unsolicited notifications standing in for spurious wake-ups), deadlock-free for the abstract counting semaphore by construction, run under hundreds to thousands of random and PCT schedules each; 2-thread programs under exhaustive DFS (bounded). Oracle: holders <= permits at every acquire return, no deadlock (shuttle's detector), permit count restored at the end. End-to-end complement: the real binary with 128-thread pools under prlimit --nofile=80..96 and reads slowed down by the interposer must report every one of 120-150 identical files without EMFILE.",
+      "The real semaphore.rs is compiled against shuttle's Mutex/Condvar/Arc (import line swapped by harness/build.rs, build fails if the line is missing). Generated programs (0-2 permits, 2-4 threads x 1-3 steps of pair / owned-guard hand-off / release-only, 0-3 unsolicited notifications standing in for spurious wake-ups), deadlock-free for the abstract counting semaphore by construction, run under hundreds to thousands of random and PCT schedules each; 2-thread programs under exhaustive DFS (bounded). Oracle: holders <= permits at every acquire return, no deadlock (shuttle's detector), permit count restored at the end (white-box read of the counter while the private field exists, and black-box: all free permits can be acquired again after the join). End-to-end complement: the real binary with 128-thread pools under prlimit --nofile=80..96 and reads slowed down by the interposer must report every one of 120-150 identical files without EMFILE.",
       "Schedules are sampled except for the DFS tier of the smallest programs; shuttle's Condvar has no spurious wake-ups of its own. End-to-end complement: C13 runs the same code with size-1 pools under the OS scheduler.",
       "proptest-generated thread programs x shuttle-generated schedules (random, PCT, bounded DFS); oracle = counting-semaphore model invariants", "DESIGN.md 4 C19")
 
